@@ -12,7 +12,11 @@ instantiated at ℝ in Props/C10/Exact.lean and Props/C10/Range.lean):
   place on the caller's array" (`callInPlace`);
 * whole-range evaluation of a model isotherm (core/modelisotherm.py `ModelIsotherm.pressure` / `.loading`):
   `numpy.linspace` over the range the model was built on, the bare model, a linear unit conversion, the strict
-  `limits` filter.  Values of transcendental models enter as input lists (as in Model/SpreadPoint.lean).
+  `limits` filter.  Values of transcendental models enter as input lists (as in Model/SpreadPoint.lean);
+* evaluation through a model isotherm in a stored STATE (`MState`: temperature number + unit, pressure representation, loading
+  scale): `kelvinOf`, `c_pressure` branch by branch (`convP`), `loadingAtS` / `pressureAtS` / `spreadingAtS` /
+  `wholePressureS` / `wholeLoadingS`, and the defect class "a conversion is handed another temperature than the kelvin one"
+  (`loadingAtT`, `pressureAtT`, `spreadingAtT`); theorems in Props/C10/State.lean.
 -/
 import Mathlib.Algebra.Order.Field.Basic
 
@@ -111,5 +115,100 @@ def convertSelect (vs : List α) (f : α) (limits : Option (Option α × Option 
   limitsStrict (vs.map (· * f)) limits
 
 end Ordered
+
+/-! ### evaluation through a model isotherm in a stored STATE
+
+A model isotherm stores a temperature NUMBER together with its unit (K or °C), a pressure representation (mode, unit), a
+loading | material representation, and the bare model.  Every accessor (`loading_at`, `pressure_at`,
+`spreading_pressure_at`, `pressure(points)`, `loading(points)`) brings its argument to the stored representation, calls the
+bare model and re-expresses the result; a change of pressure MODE needs the saturation pressure, a change to or from a
+volume basis needs the densities, of the adsorbate AT THE KELVIN TEMPERATURE of the state (`BaseIsotherm.temperature`),
+whatever unit the number is stored in.  The adsorbate enters as functions of the kelvin temperature. -/
+
+/-- `BaseIsotherm.temperature`: kelvin temperature of a state whose number `t` is stored in °C (`celsius`) or in K -/
+def kelvinOf (celsius : Bool) (t : α) : α := if celsius then t + 27315 / 100 else t
+
+inductive PMode where
+  | absolute | relative | percent
+  deriving DecidableEq, Repr
+
+/-- `relative` and `relative%` are of one kind (no saturation pressure between them), `absolute` of the other -/
+def PMode.isAbs : PMode → Bool
+  | .absolute => true
+  | _ => false
+
+/-- a pressure representation: the mode and, for absolute pressures, Pa per unit (not used by the relative modes) -/
+structure PRep (α : Type) where
+  mode : PMode
+  unit : α
+
+/-- Pa per 1 of the representation, `p0` = saturation pressure in Pa -/
+def PRep.scale (p0 : α) (r : PRep α) : α :=
+  match r.mode with
+  | .absolute => r.unit
+  | .relative => p0
+  | .percent => p0 / 100
+
+/-- `c_pressure(x, mode_from, mode_to, unit_from, unit_to, adsorbate, temp)`, `p0` = saturation pressure (Pa) at `temp`:
+branch by branch as in units/converter_mode.py (`value * factor ** sign`, `factor = psat in the absolute unit [/ 100]`) -/
+def convP (p0 : α) (src dst : PRep α) (x : α) : α :=
+  match src.mode, dst.mode with
+  | .absolute, .absolute => x * (src.unit / dst.unit)
+  | .absolute, .relative => x / (p0 / src.unit)
+  | .absolute, .percent => x / (p0 / src.unit / 100)
+  | .relative, .absolute => x * (p0 / dst.unit)
+  | .percent, .absolute => x * (p0 / dst.unit / 100)
+  | .relative, .percent => x * 100
+  | .percent, .relative => x / 100
+  | .relative, .relative => x
+  | .percent, .percent => x
+
+/-- what a model isotherm stores besides the model: `lscale T` = SI content (mol adsorbate per g material) of one unit of the
+stored loading | material representation at the kelvin temperature `T` (constant in `T` for molar and mass bases) -/
+structure MState (α : Type) where
+  celsius : Bool
+  temp : α
+  prep : PRep α
+  lscale : α → α
+
+def MState.kelvin (s : MState α) : α := kelvinOf s.celsius s.temp
+
+/-- `ModelIsotherm.loading_at(x, pressure_mode, pressure_unit, loading_basis, …)` where the pressure conversion is handed the
+temperature `Tp` and the loading conversion the temperature `Tl` (`rqP`, `rqL`: the requested representations) -/
+def loadingAtT (psat : α → α) (Tp Tl : α) (s : MState α) (model : α → α) (rqP : PRep α) (rqL : α → α) (x : α) : α :=
+  model (convP (psat Tp) rqP s.prep x) * (s.lscale Tl / rqL Tl)
+
+/-- … as the library does it: both are the kelvin temperature of the state -/
+def loadingAtS (psat : α → α) (s : MState α) (model : α → α) (rqP : PRep α) (rqL : α → α) (x : α) : α :=
+  loadingAtT psat s.kelvin s.kelvin s model rqP rqL x
+
+/-- `ModelIsotherm.pressure_at(l, loading_basis, …, pressure_mode, pressure_unit)` around the bare inverse `inv` -/
+def pressureAtT (psat : α → α) (Tp Tl : α) (s : MState α) (inv : α → α) (rqL : α → α) (rqP : PRep α) (l : α) : α :=
+  convP (psat Tp) s.prep rqP (inv (l * (rqL Tl / s.lscale Tl)))
+
+def pressureAtS (psat : α → α) (s : MState α) (inv : α → α) (rqL : α → α) (rqP : PRep α) (l : α) : α :=
+  pressureAtT psat s.kelvin s.kelvin s inv rqL rqP l
+
+/-- `ModelIsotherm.spreading_pressure_at(x, pressure_mode, pressure_unit)`: input conversion only -/
+def spreadingAtT (psat : α → α) (Tp : α) (s : MState α) (spr : α → α) (rqP : PRep α) (x : α) : α :=
+  spr (convP (psat Tp) rqP s.prep x)
+
+def spreadingAtS (psat : α → α) (s : MState α) (spr : α → α) (rqP : PRep α) (x : α) : α :=
+  spreadingAtT psat s.kelvin s spr rqP x
+
+section OrderedState
+variable [LinearOrder α]
+
+/-- `ModelIsotherm.pressure(points, pressure_mode, pressure_unit, limits)` of a loading-explicit model in state `s` -/
+def wholePressureS (psat : α → α) (s : MState α) (a b : α) (n : Nat) (rqP : PRep α)
+    (limits : Option (Option α × Option α)) : List α :=
+  limitsStrict ((linspace a b n).map (convP (psat s.kelvin) s.prep rqP)) limits
+
+/-- `ModelIsotherm.loading(points, loading_basis, …, limits)` of a loading-explicit model in state `s` -/
+def wholeLoadingS (s : MState α) (model : α → α) (a b : α) (n : Nat) (rqL : α → α)
+    (limits : Option (Option α × Option α)) : List α :=
+  limitsStrict (((linspace a b n).map model).map (· * (s.lscale s.kelvin / rqL s.kelvin))) limits
+
+end OrderedState
 
 end PgVerif.Model.MEval
